@@ -109,6 +109,7 @@ def tx_case(col, case):
     drv = SourceDriver(dut.sink, tokens_of(data), sched, rng)
     mon = EndpointMonitor(dut.sink, "sink")
     tr = Tracer([("tx", pads.tx), ("valid", dut.sink.valid), ("ready", dut.sink.ready)])
+    viol.tracer = tr
 
     class Retune:
         """Changes the tuning word between frames (line idle, nothing offered)."""
@@ -163,8 +164,8 @@ def tx_case(col, case):
     if kind == "b2b" and len(ratios) == 1:
         for (s0, _, P), (s1, _, _) in zip(dec.frames, dec.frames[1:]):
             col.ev("uart_tx_b2b_gaps")
-            if s1 - s0 > 10 * P + 3:
-                viol.add("uart_tx/frame-length", "back-to-back start-to-start distance %d cycles > 10 bit periods (%.1f) + 3"
+            if s1 - s0 > 10 * P + 2:
+                viol.add("uart_tx/frame-length", "back-to-back start-to-start distance %d cycles > 10 bit periods (%.1f) + 2"
                          % (s1 - s0, 10 * P), start=s0, next_start=s1, period=P)
     viol.flush(col, case, tr)
     col.case_done(case, nontrivial=len(dec.frames) >= 4,
@@ -260,6 +261,7 @@ def rx_case(col, case):
     snk = SinkDriver(dut.source, Always(True))
     mon = EndpointMonitor(dut.source, "source")
     tr = Tracer([("rx", pads.rx), ("valid", dut.source.valid), ("data", dut.source.data)])
+    viol.tracer = tr
     cap = int(tend + 4 * P + 40)
     b = Bench(dut, cap=cap + 10)
     for a in (gen, snk, mon, tr, Stopper(lambda: False, after=cap)):
@@ -338,6 +340,7 @@ def full_case(col, case):
     dec = TxDecoder(pads.tx, lambda: P, viol, name="uart/tx")
     gen = RxGenerator(pads.rx, edges)
     tr = Tracer([("tx", pads.tx), ("rx", pads.rx), ("irq", u.ev.irq)])
+    viol.tracer = tr
     cap = int(max(tend, case["n"] * 10 * P * 1.3) + 30 * P + 300)
 
     def fin():
@@ -372,7 +375,7 @@ def cases(tier, seed):
     q = tier == "quick"
     out = []
     k = 0
-    for rep in range(1 if q else 6):
+    for rep in range(3 if q else 12):
         for r in TX_RATIOS:
             for sched in ("b2b", "bursts", "sparse"):
                 n = int(min(60, max(10, (1500 if q else 4000) / (10 * r))))
@@ -385,7 +388,7 @@ def cases(tier, seed):
             out.append({"cls": "uart_tx", "seed": "%d/C19/uart_tx/%d" % (seed, k), "ratios": ratios, "n": 12, "sched": "bursts"})
             k += 1
     k = 0
-    for rep in range(2 if q else 16):
+    for rep in range(6 if q else 40):
         for r in RX_RATIOS:
             for bad in (False, True):
                 n = int(max(8, (2000 if q else 4000) / (10 * r)))
@@ -396,7 +399,7 @@ def cases(tier, seed):
             out.append({"cls": "uart_rx", "seed": "%d/C19/uart_rx/%d" % (seed, k), "ratio": r, "n": n, "tol": RX_LOW_TOL, "bad": rep % 2 == 1})
             k += 1
     k = 0
-    for rep in range(1 if q else 5):
+    for rep in range(2 if q else 10):
         for ratio, depth, lazy in ((16, 16, 0), (20.7, 4, 150), (16, 8, 40), (27.3, 16, 400)):
             out.append({"cls": "uart_full", "seed": "%d/C19/uart_full/%d" % (seed, k), "ratio": ratio, "depth": depth,
                         "lazy": lazy, "n": 14 if q else 24, "tol": RX_TOL})
